@@ -125,6 +125,8 @@ var ciTemplates = []string{
 	// classes that cover everything but a short run (normalised to a negated form listing the run), with an explicit
 	// member whose case partner lies in that run; and categories inside a subtraction (widened under IgnoreCase)
 	`[\x00-\x60b-\x{10FFFF}]`, `[\x00-jl-\x{10FFFF}]x`, `[\x00-\x40C-\x{10FFFF}]+`, `[\x01-\x{10FFFF}]a`, `[\x00-дж-\x{10FFFF}]`, `[\w-[\p{Lu}]]`, `[a-z-[\p{Ll}]]x`, `[abc-[\p{Lu}]]`, `[\w$-[\p{Ll}]]`, `[a-z5-[\w-[\p{Lu}]]]`, `[\p{L}-[\p{Uppercase_Letter}]]`,
+	// a literal run that starts with a caseless non-ASCII character is still a case-insensitive literal
+	`¿que`, `—да`, `«ab»c`, `·αβ`, `²ab`, `¡é!`, ` ab`, `…xy`,
 	`\bab\b`, `a\Bb`, `[a-c][e-z]`, `[eéä]+b`, `z[^é]`, `[^a-c][^z]`,
 }
 
